@@ -8,6 +8,9 @@ CONSTANTS
   ProbeBlocks <- MCProbeBlocks
   Variant = "actfallback"
   MaxCalls = 1
+  MaxEdits = 0
+  EditCoefs <- MCEditCoefs
+  EditNames <- MCEditNames
 INVARIANT TypeOK
 INVARIANT ActDifference
 INVARIANT KeqActRatio
